@@ -7,6 +7,7 @@ import (
 	"time"
 
 	zz "github.com/PowerDNS/lightningstream/internal/zzverif"
+	"github.com/PowerDNS/lightningstream/lmdbenv/header"
 )
 
 // vSafeName returns a name of 1..maxLen characters over the documented safe alphabet
@@ -117,4 +118,26 @@ func VerifC15Parse() {
 	} else {
 		zz.Reach("C15/parse/rejected")
 	}
+}
+
+// VerifC15Zone: the time handed to the builder is in the process's local zone (time.Now(),
+// time.Unix() and header.Timestamp.Time() all return local times), which is an arbitrary fixed
+// offset: names are still rendered in UTC, so they round-trip to the same instant and sort by
+// instant across zones.
+func VerifC15Zone() {
+	zz.LocalZone()
+	t1, t2 := vInstant("t1"), vInstant("t2")
+	if zz.Choice("t2.utc", 2) == 1 {
+		t2 = t2.UTC()
+	}
+	n1 := NameInfo{Extension: DefaultExtension, SyncerName: "d", InstanceID: "i", GenerationID: "GX", Timestamp: t1}.BuildName()
+	n2 := NameInfo{Extension: DefaultExtension, SyncerName: "d", InstanceID: "i", GenerationID: "GX", Timestamp: t2}.BuildName()
+	got, err := ParseName(n1)
+	zz.Assert(err == nil, "C15/zone/built-name-parses")
+	if err == nil {
+		zz.Assert(got.Timestamp.UnixNano() == t1.UnixNano(), "C15/zone/roundtrip-same-instant")
+	}
+	zz.Assert(zz.Implies(t1.Before(t2), n1 < n2), "C15/zone/earlier-sorts-first")
+	zz.Assert(NameTimestampFromNano(header.Timestamp(t1.UnixNano())) == NameTimestamp(t1.UTC()), "C15/zone/from-nano-is-utc")
+	zz.Reach("C15/zone/done")
 }
